@@ -234,3 +234,32 @@ def inline_flag(term):
         return src, {0: ev(term[1], 0), 1: ev(term[1], 1)}
     except (ValueError, TypeError, IndexError):
         return None
+
+
+CMP_TRAITS = ("cmp::PartialEq", "cmp::Eq", "hash::Hash", "cmp::PartialOrd", "cmp::Ord", "clone::Clone")
+
+
+def check_derived_impls(ctx, chk, pid, cfgs, want, floor, what):
+    """The properties speak of decoded *values*: "the same value", "distinct values", "exactly the
+    payload".  Users observe values through `==`, `clone()`, hashing and ordering, so these impls
+    of the types a property covers must be the compiler-derived, structural ones.  A hand-written
+    impl is reported as unanalysable (a correct one would be a false alarm: deciding that an
+    arbitrary `eq` / `clone` body is structural is out of reach)."""
+    for cfg in cfgs:
+        f = ctx.facts(cfg)
+        n = 0
+        for b in f.bodies.values():
+            tr = b.get("impl_trait") or ""
+            if not any(tr.endswith(t) for t in CMP_TRAITS):
+                continue
+            full = (b.get("impl_self") or "").split("<")[0]
+            short = full.rsplit("::", 1)[-1]
+            if not want(short, full):
+                continue
+            n += 1
+            tn = tr.rsplit("::", 1)[-1]
+            chk.ob(bool(b.get("derived")), "%s/manual-%s/%s/%s" % (pid, "clone" if tn == "Clone" else "eq", short, tn),
+                   "reason=unanalysable: %s for %s [%s] is hand-written (%s): %s is decided for structural (derived) %s only" % (
+                       tn, full, cfg, b["def"], what, "copies" if tn == "Clone" else "comparison"),
+                   sample={"type": short, "impl": tn, "derived": True})
+        chk.ob(n >= floor, "%s/derived-impls-floor/%d" % (pid, n), "only %d comparison / clone impls of the covered types found [%s]" % (n, cfg))
